@@ -133,9 +133,11 @@ type Spec struct {
 	CritTSEKU  bool // critical extended key usage "timestamping" (RFC 3161 TSA leaf)
 	NoKeyUsage bool
 	KeyUsage   x509.KeyUsage // if non-zero, replaces the default key usage
-	Serial     *big.Int      // if non-nil, the serial number (default: a fresh one)
-	Key        crypto.Signer
-	CRLSign    bool
+	// NoBasicConstraints: the certificate carries no basic-constraints extension at all
+	NoBasicConstraints bool
+	Serial             *big.Int // if non-nil, the serial number (default: a fresh one)
+	Key                crypto.Signer
+	CRLSign            bool
 }
 
 var (
@@ -187,6 +189,9 @@ func Mint(spec Spec, parent *Cert) *Cert {
 	}
 	if spec.NoKeyUsage {
 		tmpl.KeyUsage = 0
+	}
+	if spec.NoBasicConstraints {
+		tmpl.BasicConstraintsValid, tmpl.IsCA = false, false
 	}
 	if spec.KeyUsage != 0 {
 		tmpl.KeyUsage = spec.KeyUsage
